@@ -95,6 +95,34 @@ def judge(prop, bad, scen_by_id, wd):
     return lines, len(viol), known
 
 
+def validate_sample(wd, sample, traces):
+    """code -> spec for generated programs: each sampled scenario becomes an MPBCore configuration of its own and its
+    recorded gate trace must be a behaviour of it (drift is recorded, never a verdict)."""
+    from concurrent.futures import ThreadPoolExecutor
+    from . import corebind as cb
+    res = {"accepted": 0, "rejected": 0, "steps": 0, "states": 0, "transitions": 0, "drift": []}
+
+    def one(sc):
+        sub = os.path.join(wd, "gv-" + sc["id"].replace("@", "_"))
+        os.makedirs(sub, exist_ok=True)
+        evs = traces.get(sc["id"], [])
+        if any(e["ev"] in ("panic", "race") for e in evs):
+            return None
+        return cb.validate_traces(sub, "g", {sc["id"]: evs}, cfg=cb.scenario_to_config(sc))
+    with ThreadPoolExecutor(max_workers=core.NCPU) as ex:
+        for sc, r in zip(sample, ex.map(one, sample)):
+            if r is None:
+                continue
+            acc, rej, st, tr, n = r
+            res["accepted"] += len(acc)
+            res["rejected"] += len(rej)
+            res["drift"] += rej
+            res["steps"] += n
+            res["states"] += st
+            res["transitions"] += tr
+    return res
+
+
 def sched_part(prop, tier, seed, extra_cov=None, extra_assume=None, tlc_runs=()):
     t0 = time.time()
     wd = core.workdir(prop)
@@ -103,9 +131,16 @@ def sched_part(prop, tier, seed, extra_cov=None, extra_assume=None, tlc_runs=())
         plan = SCHED_PLANS[prop]
         counts = [(f, q if tier == "quick" else t) for f, q, t in plan]
         scs = gen.batch(seed, counts)
+        # a sample of the programs is also recorded gate by gate and validated against MPBCore.tla
+        from . import corebind as cb
+        nval = 24 if tier == "quick" else 600
+        sample = [x for x in scs if x["sched"]["mode"] != "free" and cb.scenario_to_config(x) is not None][:nval]
+        for x in sample:
+            x["stats"] = True
         traces = core.run_scenarios(binary, wd, scs)
         bad, st, tr, nev = core.run_obs(traces, wd)
         scen_by_id = {s["id"]: s for s in scs}
+        gate = validate_sample(wd, sample, traces)
         lines, nviol, known = judge(prop, bad, scen_by_id, wd)
         hashes = {trace_hash(evs) for evs in traces.values() if nontrivial(evs)}
         sample_ids = list(traces)[:3]
@@ -115,7 +150,7 @@ def sched_part(prop, tier, seed, extra_cov=None, extra_assume=None, tlc_runs=())
             samples.append({"trace": tid, "cfg": scen_by_id[tid]["cfg"], "events": len(evs),
                             "frames": sum(1 for e in evs if e["ev"] == "out"),
                             "program": [[o["op"] + ":" + o.get("b", "") for o in c] for c in scen_by_id[tid]["clients"]]})
-        states, trans = st, tr
+        states, trans = st + gate["states"], tr + gate["transitions"]
         model = []
         for name, fn in tlc_runs:
             r = fn(tier, seed, wd)
@@ -130,13 +165,16 @@ def sched_part(prop, tier, seed, extra_cov=None, extra_assume=None, tlc_runs=())
                        "scheduler; distinct = distinct sequences of API calls and frames among traces that drew a bar or ended "
                        "by error/cancel/hang" % ",".join(f for f, _ in counts),
                "exhaustive": False, "monitor_events": nev, "families": dict(counts),
+               "gate_traces_accepted": gate["accepted"], "gate_traces_rejected": gate["rejected"], "gate_steps": gate["steps"],
+               "drift_traces": gate["drift"][:10],
                "known_findings": {k: len({b["tr"] for b in v}) for k, v in known.items()}, "model_runs": model,
                "checker_cmd": "tlc Obs.tla (batched traces) ; harness.test TestWorker"}
         if extra_cov:
             cov.update(extra_cov)
         assume = ["synctest quiescence is exact", "row markers are self-delimiting", "TLC evaluates Obs.tla correctly",
                   "known findings are matched by rule name, which carries the mechanism (specs/Obs.tla)"]
-        lines.append("%s %s sched: %d traces, %d monitor states, %d violations, %.1fs" % (prop, tier, len(traces), st, nviol, time.time() - t0))
+        lines.append("%s %s sched: %d traces, %d monitor states, %d violations; gate traces vs MPBCore: %d accepted, %d rejected; %.1fs" % (
+            prop, tier, len(traces), st, nviol, gate["accepted"], gate["rejected"], time.time() - t0))
         return {"cov": cov, "lines": lines, "nviol": nviol, "assume": assume + (extra_assume or [])}
     finally:
         shutil.rmtree(wd, ignore_errors=True)
@@ -334,7 +372,7 @@ def core_part(prop, tier, seed):
     try:
         binary = core.build_harness(wd)
         cfgs = CORE_CFGS[prop][0 if tier == "quick" else 1]
-        nsim, nrand = (40, 20) if tier == "quick" else (400, 150)
+        nsim, nrand = (30, 15) if tier == "quick" else (400, 150)
         states = trans = 0
         model, scs, expect = [], [], {}
         for name in cfgs:
